@@ -163,7 +163,7 @@ WORKLOADS = [
     Workload(
         name="history",
         run=run_history_c46,
-        runs={"quick": 40_000, "thorough": 3_000_000},
+        runs={"quick": 150_000, "thorough": 3_000_000},
         chunk=500,
         run_timeout=60.0,
         real=["porepy.utils.array_operations.SparseNdArray.add/get", "porepy.utils.array_operations.intersect_sets (scipy KDTree)"],
